@@ -1,7 +1,7 @@
 (* PropC07.v — expiry: an expired key behaves exactly like a missing key for every command
    of the table, a key is visible up to and including its deadline, TTL reporting, and the
    rules by which commands keep, clear or set the deadline. *)
-From RE Require Import Base Resp State Exec Exec2 Bits Dispatch Lemmas.
+From RE Require Import Base Resp State Exec Exec2 Bits Lcs Sort Fnum Dispatch Lemmas.
 From Coq Require Import ZArith.
 From Coq Require Import String.
 From Coq Require Import List.
@@ -55,7 +55,9 @@ Definition table : list (string * (Z -> db -> list bytes -> res)) :=
    ("pexpireat", cmd_expire msec false); ("ttl", cmd_ttl sec true); ("pttl", cmd_ttl msec true);
    ("expiretime", cmd_ttl sec false); ("pexpiretime", cmd_ttl msec false); ("persist", cmd_persist);
    ("setbit", cmd_setbit); ("getbit", cmd_getbit); ("bitcount", cmd_bitcount); ("bitpos", cmd_bitpos);
-   ("bitop", cmd_bitop); ("bitfield", cmd_bitfield false); ("bitfield_ro", cmd_bitfield true)].
+   ("bitop", cmd_bitop); ("bitfield", cmd_bitfield false); ("bitfield_ro", cmd_bitfield true);
+   ("lcs", cmd_lcs); ("sort", cmd_sort); ("incrbyfloat", cmd_incrbyfloat);
+   ("hincrbyfloat", cmd_hincrbyfloat)].
 
 Fixpoint tlook (t : list (string * (Z -> db -> list bytes -> res))) (name : bytes) :=
   match t with
@@ -63,8 +65,10 @@ Fixpoint tlook (t : list (string * (Z -> db -> list bytes -> res))) (name : byte
   | (s, f) :: r => if bytes_eqb name (s2b s) then Some f else tlook r name
   end.
 
+(* both sides are normalised to the same [if]-chain first, so that a table that lacks an entry
+   of [data_cmd] makes this fail at once (plain [reflexivity] then backtracks for hours) *)
 Lemma data_cmd_tlook name : data_cmd name = tlook table name.
-Proof. reflexivity. Qed.
+Proof. cbv [data_cmd table tlook]. reflexivity. Qed.
 
 Lemma tlook_in t name f : tlook t name = Some f -> exists s, name = s2b s /\ In (s, f) t.
 Proof.
@@ -99,7 +103,7 @@ Ltac unf :=
      cmd_smismember cmd_smembers cmd_smove cmd_srandmember cmd_sscan cmd_setop cmd_setop_store
      cmd_sintercard cmd_del cmd_exists cmd_touch cmd_type cmd_rename cmd_copy cmd_keys cmd_randomkey
      cmd_dbsize cmd_scan cmd_expire cmd_ttl cmd_persist cmd_setbit cmd_getbit cmd_bitcount cmd_bitpos
-     cmd_bitop cmd_bitfield set_core incr_core expire_core lmove_core store_str_or_del
+     cmd_bitop cmd_bitfield cmd_lcs lcs_operand cmd_incrbyfloat cmd_hincrbyfloat set_core incr_core expire_core lmove_core store_str_or_del
      get_list get_hash get_set str_key keys_live].
 
 (* ------------------------------------------------------------------ *)
@@ -444,6 +448,58 @@ Proof.
   all: apply cg_lmpop_keys; exact H.
 Qed.
 
+(* LCS, SORT, INCRBYFLOAT, HINCRBYFLOAT: they read the database through [lookup now d] only *)
+Lemma c_lcs now d1 d2 a : deq now d1 d2 -> live now d1 = live now d2 -> rel_s now (cmd_lcs now d1 a) (cmd_lcs now d2 a).
+Proof. cgo. Qed.
+Lemma c_incrbyfloat now d1 d2 a : deq now d1 d2 -> live now d1 = live now d2 -> rel_s now (cmd_incrbyfloat now d1 a) (cmd_incrbyfloat now d2 a).
+Proof. cgo. Qed.
+Lemma c_hincrbyfloat now d1 d2 a : deq now d1 d2 -> live now d1 = live now d2 -> rel_s now (cmd_hincrbyfloat now d1 a) (cmd_hincrbyfloat now d2 a).
+Proof. cgo. Qed.
+
+Lemma cg_pattern_get now d1 d2 p x : deq now d1 d2 -> pattern_get now d1 p x = pattern_get now d2 p x.
+Proof.
+  intro H. unfold pattern_get. destruct (bytes_eqb p [35%N]); [reflexivity|].
+  destruct (split_star p) as [[pre post]|]; [|reflexivity].
+  destruct (split_arrow post) as [[post' fld]|]; rewrite (deq_lookup _ _ _ H); reflexivity.
+Qed.
+Lemma cg_keyed now d1 d2 by_ alpha l : deq now d1 d2 -> keyed now d1 by_ alpha l = keyed now d2 by_ alpha l.
+Proof.
+  intro H. induction l as [|x r IH]; cbn [keyed]; [reflexivity|]. rewrite IH.
+  destruct by_ as [p|]; [rewrite (cg_pattern_get _ _ _ p x H)|]; reflexivity.
+Qed.
+Lemma cg_out_elems now d1 d2 gets l : deq now d1 d2 -> out_elems now d1 gets l = out_elems now d2 gets l.
+Proof.
+  intro H. unfold out_elems. destruct gets as [|g gs]; [reflexivity|].
+  induction l as [|x r IH]; cbn [flat_map]; [reflexivity|]. rewrite IH. f_equal.
+  apply map_ext. intro p. apply cg_pattern_get. exact H.
+Qed.
+Lemma cg_sort_source now d1 d2 k : deq now d1 d2 -> sort_source now d1 k = sort_source now d2 k.
+Proof. intro H. unfold sort_source. rewrite (deq_lookup _ _ _ H). reflexivity. Qed.
+
+(* innermost scrutinee of the head match of a term *)
+Ltac hs7 t :=
+  lazymatch t with
+  | fst ?x => hs7 x
+  | snd ?x => hs7 x
+  | match ?x with _ => _ end => hs7 x
+  | _ => t
+  end.
+(* one step along the head match of the left result; the readers are first moved to d2 *)
+Ltac sort_cg_step H :=
+  rewrite ?(cg_keyed _ _ _ _ _ _ H), ?(cg_out_elems _ _ _ _ _ H);
+  lazymatch goal with
+  | |- rel_s _ (match _ with _ => _ end) _ =>
+    match goal with |- rel_s _ ?T _ => let x := hs7 T in destruct x end
+  | |- rel_s _ (_, _) (_, _) => split; cbn [fst snd]; [reflexivity | auto with deqdb]
+  end.
+Lemma c_sort now d1 d2 a : deq now d1 d2 -> live now d1 = live now d2 -> rel_s now (cmd_sort now d1 a) (cmd_sort now d2 a).
+Proof.
+  intros H _. unfold cmd_sort. destruct a as [|k opts]; [split; [reflexivity|exact H]|].
+  destruct (scan_sort opts st0) as [o| |]; try (split; [reflexivity|exact H]).
+  cbv zeta. rewrite (cg_sort_source _ _ _ k H).
+  repeat sort_cg_step H.
+Qed.
+
 Definition cg_strong (f : Z -> db -> list bytes -> res) : Prop :=
   forall now d1 d2 a, deq now d1 d2 -> live now d1 = live now d2 -> rel_s now (f now d1 a) (f now d2 a).
 Definition cg_weak (f : Z -> db -> list bytes -> res) : Prop :=
@@ -550,6 +606,10 @@ Proof.
   apply Forall_cons; [exact c_bitop|].
   apply Forall_cons; [apply cg_weaken; exact (c_bitfield false)|].
   apply Forall_cons; [apply cg_weaken; exact (c_bitfield true)|].
+  apply Forall_cons; [apply cg_weaken; exact c_lcs|].
+  apply Forall_cons; [apply cg_weaken; exact c_sort|].
+  apply Forall_cons; [apply cg_weaken; exact c_incrbyfloat|].
+  apply Forall_cons; [apply cg_weaken; exact c_hincrbyfloat|].
   apply Forall_nil.
 Qed.
 
@@ -885,8 +945,24 @@ Proof.
   congruence.
 Qed.
 
+Lemma k_lcs now d a : kx now d (fst (cmd_lcs now d a)).
+Proof.
+  unfold cmd_lcs.
+  repeat (lazymatch goal with
+          | |- kx _ _ (fst (match _ with _ => _ end)) =>
+            match goal with |- kx _ _ (fst ?T) => let x := hs7 T in destruct x end
+          | |- kx _ _ (fst (_, _)) => fail
+          end).
+  all: apply kx_refl.
+Qed.
+Lemma k_incrbyfloat now d a : kx now d (fst (cmd_incrbyfloat now d a)).
+Proof. kgo. Qed.
+Lemma k_hincrbyfloat now d a : kx now d (fst (cmd_hincrbyfloat now d a)).
+Proof. kgo. Qed.
+
+(* "sort": SORT ... STORE dst replaces dst (no deadline), like the S*STORE commands *)
 Definition ttl_changers : list string :=
-  ["set"; "setex"; "psetex"; "getset"; "getex"; "mset"; "sinterstore"; "sunionstore"; "sdiffstore"; "rename"; "renamenx"; "copy"; "expire"; "pexpire"; "expireat"; "pexpireat"; "persist"; "bitop"].
+  ["set"; "setex"; "psetex"; "getset"; "getex"; "mset"; "sinterstore"; "sunionstore"; "sdiffstore"; "rename"; "renamenx"; "copy"; "expire"; "pexpire"; "expireat"; "pexpireat"; "persist"; "bitop"; "sort"].
 
 Lemma keep_table : Forall (fun sf => In (fst sf) ttl_changers \/ forall now d a, kx now d (fst (snd sf now d a))) table.
 Proof.
@@ -987,6 +1063,10 @@ Proof.
   apply Forall_cons; [left; cbn; tauto|].
   apply Forall_cons; [right; exact (k_bitfield false)|].
   apply Forall_cons; [right; exact (k_bitfield true)|].
+  apply Forall_cons; [right; exact k_lcs|].
+  apply Forall_cons; [left; cbn; tauto|].
+  apply Forall_cons; [right; exact k_incrbyfloat|].
+  apply Forall_cons; [right; exact k_hincrbyfloat|].
   apply Forall_nil.
 Qed.
 
@@ -1005,7 +1085,7 @@ Qed.
 Print Assumptions C07_inplace_keeps_deadline.
 
 Definition inplace_names : list string :=
-  ["append"; "setrange"; "incr"; "decr"; "incrby"; "decrby"; "setbit"; "bitfield"; "lpush"; "rpush"; "lpushx"; "rpushx"; "lpop"; "rpop"; "lset"; "linsert"; "lrem"; "ltrim"; "lmove"; "rpoplpush"; "lmpop"; "hset"; "hmset"; "hsetnx"; "hdel"; "hincrby"; "sadd"; "srem"; "smove"].
+  ["append"; "setrange"; "incr"; "decr"; "incrby"; "decrby"; "setbit"; "bitfield"; "lpush"; "rpush"; "lpushx"; "rpushx"; "lpop"; "rpop"; "lset"; "linsert"; "lrem"; "ltrim"; "lmove"; "rpoplpush"; "lmpop"; "hset"; "hmset"; "hsetnx"; "hdel"; "hincrby"; "sadd"; "srem"; "smove"; "incrbyfloat"; "hincrbyfloat"].
 
 Lemma inplace_table : Forall (fun s => exists f, data_cmd (s2b s) = Some f /\ forall now d a, kx now d (fst (f now d a))) inplace_names.
 Proof.
@@ -1039,6 +1119,8 @@ Proof.
   apply Forall_cons; [exists (cmd_sadd); split; [reflexivity | exact k_sadd]|].
   apply Forall_cons; [exists (cmd_srem); split; [reflexivity | exact k_srem]|].
   apply Forall_cons; [exists (cmd_smove); split; [reflexivity | exact k_smove]|].
+  apply Forall_cons; [exists (cmd_incrbyfloat); split; [reflexivity | exact k_incrbyfloat]|].
+  apply Forall_cons; [exists (cmd_hincrbyfloat); split; [reflexivity | exact k_hincrbyfloat]|].
   apply Forall_nil.
 Qed.
 
@@ -1234,6 +1316,58 @@ Proof.
        match goal with H : aget (d_map _) _ = None |- _ => rewrite H in Hl end; discriminate.
 Qed.
 Print Assumptions C07_bitop_clears.
+
+(* SORT: with STORE the destination is replaced and has no deadline (the source and the
+   pattern keys are only read); without STORE the database record is returned as it is *)
+Theorem C07_sort_store_clears now now' d k opts o dst n e :
+  scan_sort opts st0 = SOk o -> st_store o = Some dst ->
+  snd (cmd_sort now d (k :: opts)) = RInt n ->
+  lookup now' (fst (cmd_sort now d (k :: opts))) dst = Some e -> e_exp e = None.
+Proof.
+  intros Hs Ho. unfold cmd_sort. rewrite Hs. cbv zeta. rewrite Ho.
+  repeat (lazymatch goal with
+          | |- snd (match _ with _ => _ end) = _ -> _ =>
+            match goal with |- snd ?T = _ -> _ => let x := hs7 T in destruct x end
+          end).
+  all: cbn [fst snd]; intros Hr Hl; try discriminate.
+  all: unfold put_list, put_or_del in Hl;
+       match type of Hl with context[is_empty_agg ?v] => destruct (is_empty_agg v) end;
+       [rewrite lookup_del_same in Hl; discriminate | apply lookup_put_exp in Hl; tauto].
+Qed.
+Print Assumptions C07_sort_store_clears.
+
+Theorem C07_sort_nostore_reads now d k opts o :
+  scan_sort opts st0 = SOk o -> st_store o = None -> fst (cmd_sort now d (k :: opts)) = d.
+Proof.
+  intros Hs Ho. unfold cmd_sort. rewrite Hs. cbv zeta. rewrite Ho.
+  repeat (lazymatch goal with
+          | |- fst (match _ with _ => _ end) = _ =>
+            match goal with |- fst ?T = _ => let x := hs7 T in destruct x end
+          end).
+  all: reflexivity.
+Qed.
+Print Assumptions C07_sort_nostore_reads.
+
+(* an expired source / weight key / operand is a missing one; STORE clears the deadline of dst *)
+Example C07_sort_lcs_ex :
+  let d0 := fst (cmd_push false false 0 empty_db [s2b "l"; s2b "b"; s2b "a"]) in
+  let d0 := fst (cmd_setex sec 0 d0 [s2b "w_a"; s2b "5"; s2b "2"]) in
+  let d0 := fst (cmd_setex sec 0 d0 [s2b "w_b"; s2b "9"; s2b "1"]) in
+  let d0 := fst (cmd_setex sec 0 d0 [s2b "dst"; s2b "9"; s2b "old"]) in
+  snd (cmd_sort 1 d0 [s2b "l"; s2b "BY"; s2b "w_*"]) = RArr [RBulk (s2b "b"); RBulk (s2b "a")] /\
+  snd (cmd_sort (5 * sec + 1) d0 [s2b "l"; s2b "BY"; s2b "w_*"]) = RArr [RBulk (s2b "a"); RBulk (s2b "b")] /\
+  snd (cmd_sort (5 * sec + 1) (purge (5 * sec + 1) d0) [s2b "l"; s2b "BY"; s2b "w_*"])
+    = RArr [RBulk (s2b "a"); RBulk (s2b "b")] /\
+  snd (cmd_sort 1 d0 [s2b "l"; s2b "ALPHA"; s2b "STORE"; s2b "dst"]) = RInt 2 /\
+  option_map e_exp (lookup 1 (fst (cmd_sort 1 d0 [s2b "l"; s2b "ALPHA"; s2b "STORE"; s2b "dst"])) (s2b "dst"))
+    = Some None /\
+  snd (cmd_lcs 1 d0 [s2b "w_a"; s2b "w_a"]) = RBulk (s2b "2") /\
+  snd (cmd_lcs (5 * sec + 1) d0 [s2b "w_a"; s2b "w_a"]) = RBulk [] /\
+  option_map e_exp (lookup 1 (fst (cmd_incrbyfloat 1 d0 [s2b "w_a"; s2b "0.5"])) (s2b "w_a"))
+    = Some (Some (5 * sec)) /\
+  option_map e_val (lookup 1 (fst (cmd_incrbyfloat 1 d0 [s2b "w_a"; s2b "0.5"])) (s2b "w_a"))
+    = Some (VStr (s2b "2.5")).
+Proof. vm_compute. repeat split; reflexivity. Qed.
 
 Example C07_replacers_ex :
   let d0 := fst (cmd_setex sec 0 (fst (cmd_setex sec 0 empty_db [s2b "a"; s2b "9"; s2b "x"])) [s2b "b"; s2b "9"; s2b "y"]) in
@@ -1509,6 +1643,10 @@ Proof.
   apply Forall_cons; [left; cbn; tauto|].
   apply Forall_cons; [right; exact (c_bitfield false)|].
   apply Forall_cons; [right; exact (c_bitfield true)|].
+  apply Forall_cons; [right; exact c_lcs|].
+  apply Forall_cons; [right; exact c_sort|].
+  apply Forall_cons; [right; exact c_incrbyfloat|].
+  apply Forall_cons; [right; exact c_hincrbyfloat|].
   apply Forall_nil.
 Qed.
 
